@@ -3,6 +3,7 @@ package rules
 import (
 	"fmt"
 	"go/token"
+	"go/types"
 	"strings"
 
 	"golang.org/x/tools/go/ssa"
@@ -95,7 +96,7 @@ func checkAccrual(c *core.Ctx, endRoot *ssa.Function) {
 		return
 	}
 	notDrop, present := false, false
-	for _, f := range c.FactsAt(acc.Instr, 0) {
+	for _, f := range c.FactsAt(acc.Instr, 1) {
 		cf, ok := f.AsCall()
 		if !ok {
 			continue
@@ -146,7 +147,7 @@ func checkAccrual(c *core.Ctx, endRoot *ssa.Function) {
 	}
 	sameVal := false
 	if call, ok := core.Unwrap(dropAdd.Common.Args[2]).(*ssa.Call); ok && dropZero.Recv() != nil {
-		sameVal = core.SameValue(call.Call.Args[0], dropZero.Recv())
+		sameVal = core.SameValue(core.NormCall(&call.Call).Args[0], dropZero.Recv())
 	}
 	c.Check(under(dropAdd) && under(dropZero) && sameVal && isBigZero(dropZero.Arg(0)) && core.Dominates(dropAdd.Instr, dropZero.Instr), "C19.dropped", "EndBlock/return-to-pool", dropAdd.Pos(),
 		"under IsToDrop(): rewards += val.GetAccumReward(); val.SetAccumReward(0) on the same validator", "a dropped validator's accumulated reward does not return to the pool (or is not zeroed afterwards)")
@@ -156,7 +157,7 @@ func checkAccrual(c *core.Ctx, endRoot *ssa.Function) {
 	for _, g := range c.Helpers(endRoot) {
 		for _, b := range g.Blocks {
 			for _, in := range b.Instrs {
-				if call, ok := in.(*ssa.Call); ok && call.Call.StaticCallee() == nil && !call.Call.IsInvoke() && call.Call.Signature().Params().Len() == 2 && call.Call.Signature().Results().Len() == 1 {
+				if call, ok := in.(*ssa.Call); ok && call.Call.StaticCallee() == nil && !call.Call.IsInvoke() && isPayRewardsSig(call.Call.Signature()) {
 					end = g
 				}
 			}
@@ -166,7 +167,7 @@ func checkAccrual(c *core.Ctx, endRoot *ssa.Function) {
 		for _, in := range b.Instrs {
 			if call, ok := in.(*ssa.Call); ok && call.Call.StaticCallee() == nil && !call.Call.IsInvoke() {
 				// call of the selected PayRewards function value
-				if strings.Contains(call.Call.Value.Type().String(), "func(height uint64, period int64)") || call.Call.Signature().Params().Len() == 2 && call.Call.Signature().Results().Len() == 1 {
+				if isPayRewardsSig(call.Call.Signature()) {
 					pay = call
 				}
 			}
@@ -193,6 +194,14 @@ func checkAccrual(c *core.Ctx, endRoot *ssa.Function) {
 		}
 	}
 	c.Check(emi && vol, "C19.more", "EndBlock/more-rewards", pay.Pos(), "the extra reward returned by PayRewards is added to the emission counter and to the base-coin volume", "the extra reward of locked stakes is not added to both the emission counter and the checker's base-coin volume")
+}
+
+// isPayRewardsSig: func(uint64, int64) *big.Int — the shape of Validators.PayRewards*.
+func isPayRewardsSig(sig *types.Signature) bool {
+	if sig.Params().Len() != 2 || sig.Results().Len() != 1 {
+		return false
+	}
+	return sig.Params().At(0).Type().String() == "uint64" && sig.Params().At(1).Type().String() == "int64" && sig.Results().At(0).Type().String() == "*math/big.Int"
 }
 
 // calledField: the call invokes a function value stored in a struct field (bus.Candidate.AddUpdate);
@@ -257,24 +266,36 @@ func checkPayout(c *core.Ctx, fn *ssa.Function) {
 		}
 	}
 	collect(fn, func(v ssa.Value) ssa.Value { return v }, func(s *core.Site) token.Pos { return s.Pos() })
-	for _, s := range core.Sites(fn) {
-		// (an unexported function of the package; it may be shared by the reward versions)
-		h := s.Common.StaticCallee()
-		if h == nil || h.Blocks == nil || core.PkgOf(h) != core.PkgOf(fn) || h.Object() == nil || h.Object().Exported() {
-			continue
-		}
-		call := s
-		collect(h, func(v ssa.Value) ssa.Value {
-			if p, ok := core.Unwrap(v).(*ssa.Parameter); ok {
-				for i, q := range h.Params {
-					if q == p && i < len(call.Common.Args) {
-						return call.Common.Args[i]
+	var descend func(g *ssa.Function, mapv func(ssa.Value) ssa.Value, pos *token.Pos, depth int)
+	descend = func(g *ssa.Function, mapv func(ssa.Value) ssa.Value, pos *token.Pos, depth int) {
+		for _, s := range core.Sites(g) {
+			// (an unexported function of the package; it may be shared by the reward versions)
+			h := s.Common.StaticCallee()
+			if h == nil || h.Blocks == nil || core.PkgOf(h) != core.PkgOf(fn) || h.Object() == nil || h.Object().Exported() || h == g {
+				continue
+			}
+			call := s
+			at := call.Pos()
+			if pos != nil {
+				at = *pos
+			}
+			mapH := func(v ssa.Value) ssa.Value {
+				if p, ok := core.Unwrap(v).(*ssa.Parameter); ok {
+					for i, q := range h.Params {
+						if q == p && i < len(call.Common.Args) {
+							return mapv(call.Common.Args[i])
+						}
 					}
 				}
+				return v
 			}
-			return v
-		}, func(*core.Site) token.Pos { return call.Pos() })
+			collect(h, mapH, func(*core.Site) token.Pos { return at })
+			if depth < 2 {
+				descend(h, mapH, &at, depth+1)
+			}
+		}
 	}
+	descend(fn, func(v ssa.Value) ssa.Value { return v }, nil, 1)
 	n, bad := len(credits), 0
 	for i, cr := range credits {
 		if !cr.paired || core.Unwrap(cr.value) != core.Unwrap(cr.bip) {
@@ -325,7 +346,7 @@ func checkPayout(c *core.Ctx, fn *ssa.Function) {
 	}
 	gated := false
 	for _, f := range c.FactsAt(ats.Instr, 0) {
-		if cf, ok := f.AsCall(); ok && cf.MethodName() == "Sign" && core.Unwrap(cf.Call.Call.Args[0]) == core.Unwrap(ats.Arg(0)) {
+		if cf, ok := f.AsCall(); ok && cf.MethodName() == "Sign" && core.Unwrap(core.NormCall(&cf.Call.Call).Args[0]) == core.Unwrap(ats.Arg(0)) {
 			if (cf.Op == token.NEQ && cf.Const == -1 && f.Truth) || (cf.Op == token.EQL && cf.Const == -1 && !f.Truth) || (cf.Op == token.GEQ && cf.Const == 0 && f.Truth) || (cf.Op == token.LSS && cf.Const == 0 && !f.Truth) {
 				gated = true
 			}
